@@ -68,9 +68,21 @@ package rhp
 // ---------------------------------------------------------------------------
 // C10: a successful renter RPC is bound to verified data, whatever the host sent
 //
-//@ func RPCFreeSectors props C10
+// The request names only sectors the caller asked to free (sorting and de-duplication may drop
+// and reorder entries but never invent one: a duplicate must not turn into another index).
+//@ extern (*rhp4.RPCFreeSectorsRequest).ChallengeSigHash
+//@   assigns nothing
+//@ extern slices.SortFunc
+//@   assigns elems:uint64
+//@   ensures forall k int :: { x[k] } 0 <= k && k < len(x) ==> (exists j int :: 0 <= j && j < len(x) && x[k] == old(x[j]))
+//@ extern slices.Compact
+//@   assigns elems:uint64
+//@   ensures len(result) <= len(s) && sameArray(result, s) && (forall k int :: { result[k] } 0 <= k && k < len(result) ==> (exists j int :: 0 <= j && j < len(s) && result[k] == old(s[j])))
+//@ func RPCFreeSectors props C10,C09
 //@   nopanic
 //@   requires t != nil && signer != nil
+//@   ensures [no-invented-index] called("WriteRequest") ==> (forall k int :: { callarg("WriteRequest", 2).(*rhp4.RPCFreeSectorsRequest).Indices[k] } 0 <= k && k < len(callarg("WriteRequest", 2).(*rhp4.RPCFreeSectorsRequest).Indices) ==>
+//@        (exists j int :: 0 <= j && j < len(indices) && callarg("WriteRequest", 2).(*rhp4.RPCFreeSectorsRequest).Indices[k] == old(indices[j])))
 //@   ensures [proof] result1 == nil ==> called("VerifyFreeSectorsProof") && callres("VerifyFreeSectorsProof")
 //@        && callarg("VerifyFreeSectorsProof", 3) == contract.Revision.Filesize / rhp4.SectorSize
 //@        && callarg("VerifyFreeSectorsProof", 4) == contract.Revision.FileMerkleRoot
